@@ -79,11 +79,11 @@ def model_check(module, cfg_text, workers=NCPU, timeout=3600, extra=(), coverage
         shutil.rmtree(wd, ignore_errors=True)
 
 
-_VERDICT = re.compile(r'<<"TRACE", (\d+), "(ACCEPT|REJECT)", (\d+)>>')
+_VERDICT = re.compile(r'<<"TRACE", (\d+), (\d+), "(ACCEPT|REJECT)", (\d+)>>')
 
 
 def _validate_shard(args):
-    module, cfg_text, traces, idx, timeout, keep = args
+    module, cfg_text, traces, idx, timeout, keep, nd = args
     wd = workdir("tv")
     try:
         tf = os.path.join(wd, "traces.json")
@@ -97,9 +97,10 @@ def _validate_shard(args):
         rc, out = _run(cmd, cwd=SPEC, env={"TRACE_FILE": tf}, timeout=timeout)
         verdicts = {}
         for m in _VERDICT.finditer(out):
-            verdicts[int(m.group(1))] = (m.group(2), int(m.group(3)))
+            verdicts.setdefault(int(m.group(1)), {})[int(m.group(2))] = (m.group(3), int(m.group(4)))
         summ = tlcout.parse(out)
-        if len(verdicts) != len(traces):
+        verdicts = {i: [v[d] for d in sorted(v)] for i, v in verdicts.items()}
+        if len(verdicts) != len(traces) or any(len(v) != nd for v in verdicts.values()):
             raise MachineryError(
                 f"trace validation shard {idx}: {len(verdicts)} verdicts for {len(traces)} traces\n" + out[-4000:]
             )
@@ -109,20 +110,21 @@ def _validate_shard(args):
             shutil.rmtree(wd, ignore_errors=True)
 
 
-def validate_traces(module, cfg_text, traces, shards=None, timeout=3600, keep=False):
-    """Validate a list of trace records with spec/<module>.tla.  Returns a list of
-    (verdict, matched_prefix_len) in input order, and stats."""
+def validate_traces(module, cfg_text, traces, shards=None, timeout=3600, keep=False, nd=1):
+    """Validate a list of trace records with spec/<module>.tla.  Returns, in input order, one
+    list per trace with `nd` (verdict, matched_prefix_len) pairs (one per configuration the
+    trace specification tries), and stats."""
     if not traces:
         return [], {"states": 0, "distinct": 0, "wall_s": 0.0, "shards": 0}
     n = len(traces)
-    shards = shards or max(1, min(max(2, NCPU // 2), (n + 19) // 20))
+    shards = shards or max(1, min(max(2, NCPU // 2), (n * nd + 19) // 20))
     parts = [[] for _ in range(shards)]
     where = []
     for i, t in enumerate(traces):
         s = i % shards
         where.append((s, len(parts[s]) + 1))
         parts[s].append(t)
-    jobs = [(module, cfg_text, p, i, timeout, keep) for i, p in enumerate(parts) if p]
+    jobs = [(module, cfg_text, p, i, timeout, keep, nd) for i, p in enumerate(parts) if p]
     t0 = time.time()
     results = {}
     stats = {"states": 0, "distinct": 0}
